@@ -40,6 +40,8 @@ EXPLANATION = (
     "with symbolic values) and the resulting items and overall lower/upper limits are compared with a reference "
     "reading of the documented grammar; (4) the limit helpers are checked for base-0 integer parsing, the folded "
     "symbolic-name table and single-character strings. No cutplace code is imported or executed."
+    " Added in rounds 6 and 7: (O1.6, concrete) code_for_number_token on concrete spellings: decimal and 0x-hex"
+    " limits are read, digit grouping with underscores (1_0) is refused."
 )
 TRUSTED = ["token.EXACT_TOKEN_TYPES of the pinned interpreter as the oracle for 'is one token'"]
 ASSUMPTIONS = [
